@@ -21,7 +21,8 @@ def main():
     mod = __import__(modname, fromlist=[fn])
     try:
         if a.replay:
-            return mod.replay(a.prop, a.replay)
+            import replay
+            return replay.run(a.prop, a.replay)
         return getattr(mod, fn)(a.prop, a.tier, seed)
     except MachineryError as e:
         print("MACHINERY-FAILURE %s: %s" % (a.prop, e))
